@@ -160,6 +160,8 @@ pub struct SweepCheck {
     /// maximum number of injection points per base program (quick, thorough)
     pub cap: (usize, usize),
     pub mode: SweepMode,
+    /// workloads with an index >= this are executed once each, without injection (plain cases)
+    pub plain_from: usize,
     pub min_nt: (usize, usize),
     pub required: Vec<&'static str>,
 }
@@ -234,6 +236,17 @@ impl Check for SweepCheck {
     fn run(&self, workload: usize, seed: u64, _index: u64, tier: Tier, verbose: bool) -> CaseOut {
         let mut rng0 = Rng::new(seed);
         let mut profile = (self.workloads[workload].3)(&mut rng0);
+        if workload >= self.plain_from {
+            // plain case: the generated program as it is (random faults and cancellations included)
+            let mut out = CaseOut::default();
+            let (log, world) = self.exec(&profile, &rng0, seed, None, None);
+            let w = world.borrow();
+            let t = Trace::new(&log, &w);
+            let nt = (self.monitor)(&t, &mut out);
+            out.count("plain_cases", 1);
+            finish_case(self.id, &log, &w, &mut out, nt, verbose);
+            return out;
+        }
         profile.conn_fault_pct = 0;
         profile.w_fault = 0;
         if self.mode != SweepMode::Faults {
@@ -690,33 +703,59 @@ pub const COMMON_ASSUME: [&str; 3] = [
 ];
 
 pub fn all() -> Vec<Box<dyn Check>> {
-    vec![Box::new(GenCheck {
+    vec![Box::new(SweepCheck {
         id: "C01",
         level: "exploration",
-        rule: "random adaptive programs (all write/read chunkings, injected Pending before I/O calls, cancellation of cancel-safe operations at random await indices, transport faults, resumed/fresh reconnects); every connection's outbound bytes are decoded by the independent strict MQTT 5 decoder. A case is non-trivial iff some write call ended inside a packet or a cancellation left 0<n<len bytes of a packet on the wire; distinct = distinct abstract traces (op kinds/outcomes, packet types, length buckets, fault kinds).",
+        rule: "every connection's outbound bytes are decoded by the independent strict MQTT 5 decoder. Workloads: (sweep) generated base programs re-executed with one operation dropped at each of its await indices under a transport that pends before every read/write/flush and accepts 1 byte / a random count / all per write, so that 'cancelled with exactly n bytes of the packet on the wire' takes every n, followed by whatever operations the program issues next (the cancel-X-after-n-bytes-then-call-Y matrix); (plain) random adaptive programs with all chunkings, random cancellations, transport faults, inbound traffic, resumed/fresh reconnects. A case is non-trivial iff some write call ended inside a packet or a cancellation left 0<n<len bytes of a packet on the wire; distinct = distinct abstract traces; keys = (cancelled operation kind) x (next writer kind).",
         assumptions: vec![
             "refcodec strict decoder implements the MQTT 5.0 client-packet rules correctly",
             "QoS 0 publish is documented as not cancel-safe: the stream after a cancelled QoS 0 publish is not judged",
             "a transport whose write returns Ok(0) violates embedded-io and is not judged",
             "user inputs are valid (topics without wildcards, legal reason codes, legal properties)",
         ],
-        workloads: vec![("general", 3000, 300_000, general), ("cancel-heavy", 3000, 300_000, c01_cancel_heavy)],
+        workloads: vec![("cancel-matrix", 120, 12_000, c01_cancel_heavy as ProfileFn), ("general", 3000, 300_000, general), ("cancel-heavy", 3000, 300_000, c01_cancel_heavy)],
         monitor: m::c01::check,
-        max_steps: 60,
+        max_steps: 50,
         epilogue_polls: 0,
+        round_trip: false,
+        cap: (50, 400),
+        mode: SweepMode::Cancels,
+        plain_from: 1,
         min_nt: (200, 2000),
-        required: vec!["writes_ending_mid_packet", "cancelled_mid_packet"],
+        required: vec!["writes_ending_mid_packet", "cancelled_mid_packet", "injection_points"],
     }),
-    gen_check!("C02", "fault_enumeration",
-        "random adaptive histories with held/reordered/failed acks and connections killed by injected transport faults (error/EOF at a random I/O index), broker DISCONNECT/close, handle drop/forget, followed by resumed or fresh reconnects and a benign continuation; per accepted QoS 1 message the monitor checks transmissions per connection, bytes, DUP, order, no send after PUBACK, replay on every drained resumed connection, completion in the end. Non-trivial iff at least one retransmission on a later connection was observed.",
-        COMMON_ASSUME.to_vec(),
-        vec![("replay-heavy", 4000, 400_000, replay_heavy as ProfileFn), ("general", 2000, 200_000, general)],
-        m::c02::check, 70, 40, (200, 2000), vec!["retransmissions", "replays_verified", "completed_in_the_end"]),
-    gen_check!("C03", "fault_enumeration",
-        "as C02 with QoS 2-heavy programs: several exchanges in different phases, PUBREC/PUBCOMP released in arbitrary order, failure codes, connection loss between any two of the four steps, resumed reconnects. Non-trivial iff a resumed connection started with at least one exchange in the release phase.",
-        COMMON_ASSUME.to_vec(),
-        vec![("qos2-heavy", 4000, 400_000, qos2_heavy as ProfileFn), ("general", 2000, 200_000, general)],
-        m::c03::check, 70, 40, (200, 2000), vec!["resumes_with_release_phase", "pubrel_replays_verified", "replays_with_2plus_pubrel"]),
+    Box::new(SweepCheck {
+        id: "C02",
+        level: "fault_enumeration",
+        rule: "per accepted QoS 1 message the recorded history is checked for: at most one transmission per connection, byte identity except DUP, DUP clear on the accepting and set on later connections, acceptance order on the wire, no transmission after its PUBACK was consumed, exactly one replay on every resumed connection on which the client went idle, completion after the benign continuation. Workloads: (sweep) generated base programs with withheld/reordered/failed acks re-executed once per I/O call index of every connection with the connection killed there (ConnectionReset, EOF, TimedOut, BrokenPipe, Interrupted, Other in rotation), each followed by the program's own resumed/fresh reconnects and the benign continuation; (plain) random histories with random faults, broker DISCONNECT/close, handle drop/forget/into_inner, cancellations. Non-trivial iff at least one retransmission on a later connection was observed; keys = fault kinds.",
+        assumptions: COMMON_ASSUME.to_vec(),
+        workloads: vec![("crash-sweep", 120, 12_000, replay_heavy as ProfileFn), ("replay-heavy", 4000, 400_000, replay_heavy), ("general", 2000, 200_000, general)],
+        monitor: m::c02::check,
+        max_steps: 50,
+        epilogue_polls: 40,
+        round_trip: false,
+        cap: (50, 400),
+        mode: SweepMode::Faults,
+        plain_from: 1,
+        min_nt: (200, 2000),
+        required: vec!["retransmissions", "replays_verified", "completed_in_the_end", "injection_points"],
+    }),
+    Box::new(SweepCheck {
+        id: "C03",
+        level: "fault_enumeration",
+        rule: "as C02 for QoS 2: several exchanges in different phases, PUBREC/PUBCOMP released in arbitrary order, failure codes; (sweep) the connection is killed at every I/O call index of QoS 2-heavy base programs, i.e. between any two of the four steps of every exchange; PUBREL only after a successful PUBREC, never PUBLISH after PUBREC, failing PUBREC ends the exchange and is surfaced, exactly one PUBREL replay per resumed drained connection, replay order = PUBREC arrival order. Non-trivial iff a resumed connection started with at least one exchange in the release phase.",
+        assumptions: COMMON_ASSUME.to_vec(),
+        workloads: vec![("crash-sweep", 120, 12_000, qos2_heavy as ProfileFn), ("qos2-heavy", 4000, 400_000, qos2_heavy), ("general", 2000, 200_000, general)],
+        monitor: m::c03::check,
+        max_steps: 50,
+        epilogue_polls: 40,
+        round_trip: false,
+        cap: (50, 400),
+        mode: SweepMode::Faults,
+        plain_from: 1,
+        min_nt: (200, 2000),
+        required: vec!["resumes_with_release_phase", "pubrel_replays_verified", "replays_with_2plus_pubrel", "injection_points"],
+    }),
     gen_check!("C04", "exploration",
         "the reference broker originates bursts of PUBLISH packets (all QoS, identifiers incl. 1/255/256/65535, random property sets, payloads up to the receive buffer, retain/DUP), retransmissions of unreleased QoS 2 identifiers, PUBRELs for known and unknown ids, interleaved with client traffic, small transmit arenas kept full by withheld acks, reconnects between PUBLISH and PUBREL; a 40-line reference receiver predicts deliveries and the exact acknowledgement sequence. Non-trivial iff a duplicate was suppressed, an ack was owed with a full arena, or >=3 QoS 2 ids were pending. The hostile workload (broker exceeding limits/reusing ids) is judged only for: no panic, acks carry ids that were received.",
         COMMON_ASSUME.to_vec(),
@@ -788,6 +827,7 @@ pub fn all() -> Vec<Box<dyn Check>> {
         round_trip: false,
         cap: (40, 400),
         mode: SweepMode::Faults,
+        plain_from: usize::MAX,
         min_nt: (200, 2000),
         required: vec!["latches_observed", "ops_after_latch", "probes_after_latch"],
     }),
@@ -803,6 +843,7 @@ pub fn all() -> Vec<Box<dyn Check>> {
         round_trip: true,
         cap: (40, 300),
         mode: SweepMode::Both,
+        plain_from: usize::MAX,
         min_nt: (200, 2000),
         required: vec!["reconnects_judged", "reconnects_with_inflight_state", "round_trips_completed"],
     }),
@@ -818,6 +859,7 @@ pub fn all() -> Vec<Box<dyn Check>> {
         round_trip: false,
         cap: (40, 300),
         mode: SweepMode::Both,
+        plain_from: usize::MAX,
         min_nt: (200, 2000),
         required: vec!["continuations_judged", "quiescent_in_the_end"],
     }),
